@@ -1,3 +1,4 @@
+import os
 from pathlib import Path
 from contextlib import contextmanager
 import warnings
@@ -10,7 +11,7 @@ from .datadir import DataDir, create_datadir
 from .metadata import MetaData
 from .readcoderaggedarray import readcode, readcodefunc, \
     shapeindexexplanationtextraggedarray
-from .utils import wrap
+from .utils import wrap, product
 
 __all__ = ['RaggedArray', 'asraggedarray', 'create_raggedarray',
            'delete_raggedarray', 'truncate_raggedarray']
@@ -338,14 +339,31 @@ class RaggedArray:
 
         """
 
-        with self.open_arrays() as ((iv, vv), (fdv, fdi)):
-            vlenincr = 0
-            ilenincr = 0
-            vlen = self._values.shape[0]
-            for a in arrayiterable:
-                vli, ili = self._append(a, fdv, fdi, vlen+vlenincr)
-                vlenincr += vli
-                ilenincr += ili
+        if self._accessmode != 'r+':
+            raise OSError(f"Accesmode should be 'r+' "
+                          f"(now is '{self._accessmode}')")
+        vlenincr = 0
+        ilenincr = 0
+        vlen = self._values.shape[0]
+        ilen = self._indices.shape[0]
+        try:
+            with self.open_arrays() as ((iv, vv), (fdv, fdi)):
+                for a in arrayiterable:
+                    vli, ili = self._append(a, fdv, fdi, vlen+vlenincr)
+                    vlenincr += vli
+                    ilenincr += ili
+        except Exception:
+            # remove what was written of the subarray that failed, and keep
+            # the subarrays that were appended completely
+            for ar, n in ((self._values, vlen + vlenincr),
+                          (self._indices, ilen + ilenincr)):
+                os.truncate(ar._datapath, n * product(ar.shape[1:]) *
+                            ar.dtype.itemsize)
+            self._update_lens(vlenincr=vlenincr, ilenincr=ilenincr)
+            raise
+        self._update_lens(vlenincr=vlenincr, ilenincr=ilenincr)
+
+    def _update_lens(self, vlenincr, ilenincr):
         self._values._update_len(lenincrease=vlenincr)
         self._indices._update_len(lenincrease=ilenincr)
         self._update_arraydescr(len=len(self._indices),
